@@ -2,7 +2,10 @@
 
 #[macro_use]
 mod cfg;
+mod ansmsg;
 mod c01;
+mod c11;
+mod rangemsg;
 
 use vengine::{PanicPolicy, Target};
 
@@ -13,6 +16,34 @@ fn main() {
         policy: PanicPolicy::AllViolations,
         max_len: 1024,
         run: c01::c01_ans,
+    },
+    Target {
+        name: "range_msg",
+        props: "C02 C06 C12 C18 (param selects the oracle)",
+        policy: PanicPolicy::AllViolations,
+        max_len: 1024,
+        run: rangemsg::range_msg,
+    },
+    Target {
+        name: "c04_bitsback",
+        props: "C04",
+        policy: PanicPolicy::AllViolations,
+        max_len: 1024,
+        run: ansmsg::c04_bitsback,
+    },
+    Target {
+        name: "ans_msg",
+        props: "C06 C12 (param selects the oracle)",
+        policy: PanicPolicy::AllViolations,
+        max_len: 1024,
+        run: ansmsg::ans_msg,
+    },
+    Target {
+        name: "c11_suffix",
+        props: "C11",
+        policy: PanicPolicy::AllViolations,
+        max_len: 2048,
+        run: c11::c11_suffix,
     }];
     vengine::main(&targets);
 }
